@@ -149,7 +149,8 @@ class C02(DecProp):
         # plus declared sizes at the top of the 16-bit range (one dimension 65521..65535, the other small)
         return (core.gen_lines("intra", rng.randint(1, 10 ** 6), core.q(tier, 500, 8000))
                 + core.gen_lines("edgesizes", rng.randint(1, 10 ** 6), core.q(tier, 6, 0) if tier == "quick" else 0)
-                + core.gen_lines("realsize", rng.randint(1, 10 ** 6), core.q(tier, 20, 400)))
+                + core.gen_lines("realsize", rng.randint(1, 10 ** 6), core.q(tier, 20, 400))
+                + core.gen_lines("tallplus", rng.randint(1, 10 ** 6), 4 if tier == "quick" else 0))
 
 
 @register
